@@ -134,7 +134,7 @@ fn one_run<K: Kit>(prop: &'static str, tier: &'static str, idx: usize, sc0: &Sce
         let before = rep.viol_counts.values().sum::<u64>();
         if prop == "C15" {
             let cb_after = crate::seams::cb_counts();
-            let st = Step { sc: &sc, hist: &[], letter: 0, pre: &pre, post: &post, result: &result, rig: &rig, log_mark, cb_before, cb_after, used: c.chunk_len, batch: true };
+            let st = Step { sc: &sc, hist: &[], letter: 0, pre: &pre, post: &post, result: &result, rig: &rig, log_mark, cb_before, cb_after, used: c.chunk_len, batch: true, sample: None };
             crate::props_tree::c15::<K>(tier, idx, &st, rep);
             rep.max("max_deep_tree_nodes", post.node_count() as u64);
             if post.node_count() > 2000 && std::env::var("MC_DEBUG").is_ok() {
@@ -182,6 +182,113 @@ fn one_run<K: Kit>(prop: &'static str, tier: &'static str, idx: usize, sc0: &Sce
     CURRENT.with(|x| *x.borrow_mut() = None);
 }
 
+/// Deep TRANSITIONS (C16, C17): the same seeded drive, but one iteration per `solve` call, and every
+/// single iteration is judged by the reference model of one iteration against the snapshots before and
+/// after it - on trees of a hundred nodes and more, where a neighbour cap, a far-rim parent or a long
+/// dog-leg can exist. The sample of the iteration is read from the sampler seam's log.
+fn one_transition_run<K: Kit>(prop: &'static str, tier: &'static str, idx: usize, sc0: &Scenario, seed: u64, iterations: usize, rep: &mut Report) {
+    let mut sc = sc0.clone();
+    sc.params.seed = Some(seed);
+    sc.params.bias = 0.1;
+    let info = json!({"mode": "deep-transitions", "scenario_index": idx, "seed": seed, "iterations": iterations});
+    CURRENT.with(|x| *x.borrow_mut() = Some(info.clone()));
+    crate::explore::watch_desc(|| json!({"deep": info, "scenario": sc.tag}).to_string());
+    rep.count("deep_transition_runs", 1);
+    let built = guarded(|| {
+        let rig = Rig::<K>::new(&sc, true);
+        rig.pass_through();
+        rig.logging(true);
+        rig.goal_mode(GoalMode::Rng);
+        rig
+    });
+    let Ok(mut rig) = built else {
+        rep.engine_error(format!("could not build deep rig for {}", sc.tag));
+        CURRENT.with(|x| *x.borrow_mut() = None);
+        return;
+    };
+    let mut pre = rig.snapshot();
+    for _ in 0..iterations {
+        let log_mark = rig.world.log.borrow().len();
+        let (n_uni, n_goal) = (rig.space.log.borrow().len(), rig.goal.sample_log.borrow().len());
+        let cb_before = crate::seams::cb_counts();
+        let res = guarded(|| {
+            oxmpl::verif::clock_reset(1_000_000);
+            rig.drv.solve(iters(1))
+        });
+        let Ok(result) = res else { break };
+        let cb_after = crate::seams::cb_counts();
+        let post = rig.snapshot();
+        // the one sample this iteration drew
+        let q: Option<K::S> = {
+            let u = rig.space.log.borrow();
+            let g = rig.goal.sample_log.borrow();
+            match (u.len() - n_uni, g.len() - n_goal) {
+                (1, 0) => Some(u.last().unwrap().1.clone()),
+                (0, 1) => Some(g.last().unwrap().1.clone()),
+                _ => None,
+            }
+        };
+        let Some(q) = q else {
+            rep.count("deep_transitions_without_exactly_one_sample", 1);
+            pre = post;
+            continue;
+        };
+        rep.count("deep_transitions", 1);
+        let before = rep.viol_counts.values().sum::<u64>();
+        let st = Step { sc: &sc, hist: &[], letter: 0, pre: &pre, post: &post, result: &result, rig: &rig, log_mark, cb_before, cb_after, used: 1, batch: false, sample: Some(&q) };
+        match prop {
+            "C16" => crate::props_tree::c16::<K>(tier, idx, &st, rep),
+            "C17" => crate::props_tree::c17::<K>(tier, idx, &st, rep),
+            _ => {}
+        }
+        rep.max("max_deep_transition_tree_nodes", post.node_count() as u64);
+        if rep.viol_counts.values().sum::<u64>() > before {
+            break;
+        }
+        pre = post;
+    }
+    CURRENT.with(|x| *x.borrow_mut() = None);
+}
+
+fn transitions_kit<K: Kit>(prop: &'static str, tier: &'static str, jobs: &[(usize, Scenario, u64)], iterations: usize) -> Report {
+    jobs.par_iter()
+        .map(|(idx, sc, seed)| {
+            let mut rep = Report::new();
+            one_transition_run::<K>(prop, tier, *idx, sc, *seed, iterations, &mut rep);
+            rep
+        })
+        .reduce(Report::new, |mut a, b| {
+            a.merge(b);
+            a
+        })
+}
+
+/// Scenario roots of the deep-transition mode: the property's BFS lattice, thinned.
+pub fn transition_roots(prop: &str, tier: &str) -> Vec<Scenario> {
+    let mut out: Vec<Scenario> = crate::props_tree::scenarios(prop, tier).into_iter().filter(|s| s.params.bias < 1.0 && s.goal_root == 0).collect();
+    if tier == "quick" {
+        let mut seen = std::collections::HashSet::new();
+        out.retain(|s| s.world.name != "subset1111" && seen.insert((s.kit, s.world.name.clone(), s.params.pk, (s.params.radius / s.params.step * 100.0) as i64)));
+    }
+    out
+}
+
+pub fn run_transitions(prop: &'static str, tier: &'static str) -> Report {
+    let (seeds, iterations) = if tier == "quick" { (3u64, 80usize) } else { (16, 250) };
+    let rs = transition_roots(prop, tier);
+    let mut rep = Report::new();
+    rep.count("deep_transition_scenarios", rs.len() as u64);
+    for kit in crate::catalog::KITS {
+        let jobs: Vec<(usize, Scenario, u64)> = rs.iter().enumerate().filter(|(_, s)| s.kit == kit).flat_map(|(i, s)| (0..seeds).map(move |seed| (i, s.clone(), seed))).collect();
+        if jobs.is_empty() {
+            continue;
+        }
+        let r = with_kit!(kit, transitions_kit(prop, tier, &jobs, iterations));
+        rep.merge(r);
+    }
+    rep
+}
+
 fn run_kit<K: Kit>(prop: &'static str, tier: &'static str, jobs: &[(usize, Scenario, u64)], c: &DeepCfg) -> Report {
     jobs.par_iter()
         .map(|(idx, sc, seed)| {
@@ -218,6 +325,35 @@ pub fn replay_file(v: &Value) -> i32 {
     let d = &v["deep"];
     if d["mode"] == "deadline-landing" {
         return crate::props_tree::replay_landing(tier, d);
+    }
+    if d["mode"] == "deep-transitions" {
+        let idx = d["scenario_index"].as_u64().unwrap_or(0) as usize;
+        let seed = d["seed"].as_u64().unwrap_or(0);
+        let n = d["iterations"].as_u64().unwrap_or(80) as usize;
+        let rs = transition_roots(prop, tier);
+        let Some(sc) = rs.get(idx) else {
+            crate::report::out("ENGINE-ERROR: replay refers to a scenario outside the lattice");
+            return 2;
+        };
+        let run = || {
+            let mut rep = Report::new();
+            with_kit!(sc.kit, one_transition_run(prop, tier, idx, sc, seed, n, &mut rep));
+            rep
+        };
+        let (r1, r2) = (run(), run());
+        if r1.viol_counts.keys().collect::<Vec<_>>() != r2.viol_counts.keys().collect::<Vec<_>>() {
+            crate::report::out("ENGINE-ERROR: replay is not deterministic");
+            return 2;
+        }
+        if r1.viol_counts.is_empty() {
+            crate::report::out(&format!("replay: property {prop} holds on this seeded execution"));
+            return 0;
+        }
+        for v in &r1.violations {
+            crate::report::out(&format!("replay: {} -- {}", v.key, v.what));
+        }
+        crate::report::out(&format!("VIOLATION property={prop} replay=(replayed)"));
+        return 1;
     }
     let idx = d["scenario_index"].as_u64().unwrap_or(0) as usize;
     let seed = d["seed"].as_u64().unwrap_or(0);
